@@ -125,7 +125,7 @@ mod vk_range {
         }
     }
 
-    // @harness name=range_skip inputs=s,e scenario="kind=range s={s} e={e} c=0 ops=next,skip,next,len,seq" props=C05,C06,C11 kind=complete
+    // @harness name=range_skip inputs=s,e scenario="kind=range s={s} e={e} c=0 ops=next,skip,next,len,seq" props=C05,C06,C11,C16 kind=complete
     #[kani::proof]
     #[kani::stub(crate::iter::atomic_counter::AtomicCounter::fetch_and_add, c_faa)]
     #[kani::stub(crate::iter::atomic_counter::AtomicCounter::fetch_and_increment, c_inc)]
@@ -139,7 +139,7 @@ mod vk_range {
         assert!(first_write().arg >= len, "[C05 C06 C11 skip-val] the stored value is at or past the end");
     }
 
-    // @harness name=range_len inputs=s,e,which,c scenario="kind=range s={s} e={e} c={c} ops=len" props=C11,C05,C06 kind=complete
+    // @harness name=range_len inputs=s,e,which,c scenario="kind=range s={s} e={e} c={c} ops=len" props=C11,C05,C06,C16 kind=complete
     #[kani::proof]
     #[kani::stub(crate::iter::atomic_counter::AtomicCounter::fetch_and_add, c_faa)]
     #[kani::stub(crate::iter::atomic_counter::AtomicCounter::fetch_and_increment, c_inc)]
@@ -207,7 +207,7 @@ mod vk_range {
 
     // the same operations seen at the level of the std atomics (every atomic operation on the counter is logged, whatever
     // AtomicCounter method -- existing or new -- performed it)
-    // @harness name=range_ops_std props=C01,C04,C05,C06,C09,C10,C11,C17 kind=complete bound="any range; chunk size and every value read symbolic over the full usize domain"
+    // @harness name=range_ops_std props=C01,C04,C05,C06,C09,C10,C11,C17,C16 kind=complete bound="any range; chunk size and every value read symbolic over the full usize domain"
     #[kani::proof]
         #[kani::stub(std::sync::atomic::Atomic::<usize>::fetch_add, a_faa)]
     #[kani::stub(std::sync::atomic::Atomic::<usize>::fetch_sub, a_fsub)]
